@@ -46,14 +46,14 @@ def run(prog, chk):
         "the instantiator's cached per-glyph models are dropped whenever a step changed the glyph sets: unconditional clear in replace_source_layers, refresh under every step's 'modified' verdict (R09.8)",
     ]
     chk.not_decided += ["that cu2qu yields equal segment counts for all masters (fontTools)", "point compatibility of the output itself", "custom filters supplied by the caller"]
-    r091(prog, chk)
-    r092(prog, chk)
-    r093(prog, chk)
-    r094(prog, chk)
-    r095(prog, chk)
-    r096(prog, chk)
-    r098(prog, chk)
-    c13.r135(prog, chk, "R09.7")
+    chk.guard(r091, prog, chk)
+    chk.guard(r092, prog, chk)
+    chk.guard(r093, prog, chk)
+    chk.guard(r094, prog, chk)
+    chk.guard(r095, prog, chk)
+    chk.guard(r096, prog, chk)
+    chk.guard(r098, prog, chk)
+    chk.guard(c13.r135, prog, chk, "R09.7")
 
 
 def _is_all_glyphsets(e: ast.AST) -> bool:
